@@ -90,6 +90,7 @@ def _walk(args):
                     data = val.encode('utf-8')
                 gs = hs.parse(data, mode=mode(kind), single=False)
                 ev['out'] = A.doc(gs)
+                ev['outq6'] = jsoncodec.q6_doc(ev['out']) if kind == 'json' else []
                 regs[j] = ('grid', gs)
             except Exception as e:
                 ev['exc'] = '%s: %s' % (type(e).__name__, str(e)[:150])
@@ -97,7 +98,7 @@ def _walk(args):
     # every event carries every field (records of one shape for TLC)
     for ev in evs:
         for k, d in (('i', 0), ('j', 0), ('text', []), ('text2', []), ('tree', [0]), ('tree2', [0]), ('before', []),
-                     ('after', []), ('q6', []), ('out', []), ('t1', []), ('t2', []), ('fmt', '')):
+                     ('after', []), ('q6', []), ('out', []), ('outq6', []), ('t1', []), ('t2', []), ('fmt', '')):
             ev.setdefault(k, d)
     return wid, evs
 
@@ -115,17 +116,35 @@ def run(tier):
         # seed documents: C03 generator (ZINC spellings) + JSON dumps of catalogue grids
         plans = zinccodec.tlc_plans(rep, work)
         docs, meta = c03.abstract_docs(hs, A, plans, 'quick', rng)
-        sel = list(range(len(docs)))
-        rng.shuffle(sel)
-        sel = sel[:120 if tier == 'quick' else 400]
-        docs2 = [docs[i] for i in sel]
+        # stratified: every payload of the kinds whose parser-made objects differ from user-made ones, plus a sample
+        key = [i for i, m in enumerate(meta) if m.get('t') == 'scalar' and m['kind'] in ('ref', 'dt', 'num', 'qty', 'xstr', 'uri', 'time',
+                                                                                      'coord', 'bin', 'str')
+               and (m['ver'] == '3.0' or m['kind'] in ('ref', 'dt'))]
+        rest = [i for i in range(len(docs)) if i not in set(key)]
+        rng.shuffle(rest)
+        sel = key + rest[:60 if tier == 'quick' else 400]
+        docs2 = [json.loads(json.dumps(docs[i])) for i in sel]
+        # date-times of one offset in different seasons, side by side (spelled without zone name by dt style 5:
+        # the parser returns fixed-offset tzinfo and the writer has to find a zone for each instant)
+        cat0 = gengrid.Catalogue(hs, rng)
+        pairs = [('adelaide_jan', 'lordhowe_jul'), ('lordhowe_jul', 'adelaide_jan'), ('berlin_jul', 'cairo_jan'),
+                 ('cairo_jan', 'berlin_jul'), ('adak_jul', 'anchorage_jan'), ('anchorage_jan', 'adak_jul')]
+        season_docs = []
+        for a, b in pairs:
+            gr = hs.Grid(version='3.0', columns=[('ts', []), ('n', [])])
+            gr.extend([{'ts': cat0.value('dt', '3.0', a)[1], 'n': 1}, {'ts': cat0.value('dt', '3.0', b)[1], 'n': 2}])
+            season_docs.append(A.doc([gr]))
+        docs2 = season_docs + docs2
         # unofficial version spellings are part of the quantifier: respell a share of the versions
         for k, d in enumerate(docs2):
             if k % 7 == 3 and d[0][1] == absval.cps('3.0'):
                 d[0][1] = absval.cps(rng.choice(['3.0.0', '2.5', '4.0', '3']))
             if k % 11 == 5 and d[0][1] == absval.cps('2.0'):
                 d[0][1] = absval.cps(rng.choice(['2.0.0', '1.0', '2']))
-        extra = [{f: rng.randint(1, c03.RANGES[f]) for f in c03.FIELDS} for _ in range(3)]
+        extra = [{f: rng.randint(1, c03.RANGES[f]) for f in c03.FIELDS} for _ in range(2)]
+        nozone = {f: 1 for f in c03.FIELDS}
+        nozone['dt'] = 5
+        extra.append(nozone)
         for e in extra:
             e['fin'] = 1
         write_consts(work, 'ZwCat', {'Docs': docs2, 'ExtraStyles': extra})
@@ -138,7 +157,8 @@ def run(tier):
             seeds[(d['di'], json.dumps(d['sty'], sort_keys=True))] = d
         seeds = sorted(seeds.values(), key=lambda d: (d['di'], json.dumps(d['sty'], sort_keys=True)))
         rng.shuffle(seeds)
-        nz, nj = (220, 80) if tier == 'quick' else (4000, 1200)
+        seeds.sort(key=lambda d: 0 if (d['di'] <= len(season_docs) or d['sty'].get('dt') == 5) else 1)
+        nz, nj = (320, 80) if tier == 'quick' else (4000, 1200)
         jobs = []
         for d in seeds[:nz]:
             jobs.append((len(jobs) + 1, 'zinc', ''.join(chr(c) for c in d['text']), rng.randint(6, 10), rng.randrange(1 << 30)))
